@@ -176,6 +176,8 @@ def api_roundtrip(shape, vals, grid=False):
         if str(m2.baseline_timezone) != "US/Pacific":
             problems.append(f"{pname}: timezone lost")
         df = pd.DataFrame({"temperature": temps}, index=idx)
+        # other meters' models live in the same process (built after this one, other calendars): they must not matter
+        DailyModel(); BillingModel(); DailyModel(settings={"weekday_weekend": {"monday": "weekend", "sunday": "weekday"}})
         p0 = base._predict(df.copy())  # the original (never stored) model object
         p1 = m1._predict(df.copy())
         p2 = m2._predict(df.copy())
@@ -218,14 +220,14 @@ REPLAY["api"] = replay_api
 
 # ---------------------------------------------------------------- hourly family (stored document, concrete)
 
-def hourly_roundtrip(scaling, solar, route):
+def hourly_roundtrip(scaling, solar, route, extra=None):
     """a stored hourly model (document in the to_dict() layout) is loaded, re-serialised through `route`, loaded again:
     document, metadata and predictions must survive.  Concrete (pydantic, json, sklearn)."""
     import logging
     logging.disable(logging.CRITICAL)
     from opendsm.eemeter.models.hourly.model import HourlyModel
     from . import hourlyref as H
-    doc = H.document(scaling=scaling, solar=solar, annotated=True)
+    doc = H.document(scaling=scaling, solar=solar, annotated=True, extra=extra)
     src = json.loads(json.dumps(doc))
     pr = []
     m1 = HourlyModel.from_dict(json.loads(json.dumps(doc)))
@@ -245,8 +247,8 @@ def hourly_roundtrip(scaling, solar, route):
     if str(m2.baseline_timezone) != "US/Pacific" or [w.qualified_name for w in m2.warnings] != ["eemeter.w"] or [w.qualified_name for w in m2.disqualification] != ["eemeter.x"]:
         pr.append("timezone / warnings / disqualification not kept")
     for span in (("2021-03-12", 4), ("2021-11-05", 4)):
-        p1 = m1.predict(H.reporting(*span, ghi=solar), ignore_disqualification=True)
-        p2 = m2.predict(H.reporting(*span, ghi=solar), ignore_disqualification=True)
+        p1 = m1.predict(H.reporting(*span, ghi=solar, extra=extra), ignore_disqualification=True)
+        p2 = m2.predict(H.reporting(*span, ghi=solar, extra=extra), ignore_disqualification=True)
         if list(p1.index) != list(p2.index) or p1["predicted"].to_numpy().tobytes() != p2["predicted"].to_numpy().tobytes():
             a, b = p1["predicted"].to_numpy(), p2["predicted"].to_numpy()
             n = int((a != b).sum()) if a.shape == b.shape else -1
@@ -256,7 +258,7 @@ def hourly_roundtrip(scaling, solar, route):
 
 
 def replay_hourly(inp):
-    pr = hourly_roundtrip(inp["scaling"], inp["solar"], inp["route"])
+    pr = hourly_roundtrip(inp["scaling"], inp["solar"], inp["route"], inp.get("extra"))
     return bool(pr), "; ".join(pr)
 
 
@@ -268,7 +270,8 @@ def run_hourly(case):
     case.inputs = []
 
     def run():
-        cfg = dict(scaling=F.choose("scaling", ["standardscaler", "robustscaler"]), solar=F.choose("solar", [False, True]), route=F.choose("route", ["json", "dict"]))
+        cfg = dict(scaling=F.choose("scaling", ["standardscaler", "robustscaler"]), solar=F.choose("solar", [False, True]), route=F.choose("route", ["json", "dict"]),
+                   extra=F.choose("extra", [None, "cloud"]))
         return cfg, hourly_roundtrip(**cfg)
 
     paths = case.explore(run)
@@ -280,6 +283,7 @@ def run_hourly(case):
         rp = ("hourly", (lambda c: lambda mdl: dict(c))(cfg))
         case.prove(p, not pr, "hourly model: stored document, metadata and predictions survive load -> write -> load", replay=rp)
         case.regime("hourly model with two time-series features (solar)", cfg["solar"])
+        case.regime("hourly model with a supplemental time-series column", cfg["extra"] is not None)
     case.sample(dict(family="hourly", variants=len(paths)))
 
 
